@@ -38,7 +38,7 @@ type tsigSpec struct {
 }
 
 type faultSpec struct {
-	Kind string // "" id rcode nosoa cut alter strip wrongkey chain stale drop dup swap
+	Kind string // "" id rcode nosoa cut stall alter strip wrongkey chain stale drop dup swap
 	Env  int    // envelope index (taken modulo the number of envelopes)
 	K    int    // cut: octet (mod stream length); alter: offset (mod covered region)
 	Val  int    // id: xor mask; rcode: code; alter: xor mask; nosoa/chain/wrongkey: variant
@@ -536,11 +536,11 @@ func buildPlan(c xferCase, reqMAC []byte, now uint64) plan {
 	for i, fr := range p.frames {
 		p.stream = binary.BigEndian.AppendUint16(p.stream, uint16(len(fr.b)))
 		p.stream = append(p.stream, fr.b...)
-		if i == n-1 && f.Kind == "cut" {
+		if i == n-1 && (f.Kind == "cut" || f.Kind == "stall") {
 			realLen = len(p.stream)
 		}
 	}
-	if f.Kind == "cut" && realLen > 0 {
+	if (f.Kind == "cut" || f.Kind == "stall") && realLen > 0 {
 		k := ((f.K % realLen) + realLen) % realLen
 		p.stream = p.stream[:k]
 		pos, off := 0, 0
@@ -615,6 +615,9 @@ func newTransfer(c xferCase, cli *endpoint) *dns.Transfer {
 	if c.Tsig != nil {
 		tr.TsigSecret = c.secrets()
 	}
+	if c.Fault.Kind == "stall" {
+		tr.ReadTimeout = 40 * time.Millisecond
+	}
 	return tr
 }
 
@@ -643,8 +646,11 @@ func runHarnessSender(c xferCase) (result, plan, error) {
 	}
 	p := buildPlan(c, reqMAC, uint64(time.Now().Unix()))
 	srv.Write(p.stream)
-	srv.closeWrite()
+	if c.Fault.Kind != "stall" {
+		srv.closeWrite()
+	} // stall: the sender keeps the stream open and sends nothing more; the receiver's ReadTimeout must end the transfer
 	r := collect(ch, cli)
+	srv.Close()
 	return r, p, nil
 }
 
@@ -1268,6 +1274,9 @@ func genCase(t *rapid.T) xferCase {
 		f.Env = rapid.IntRange(0, nenv-1).Draw(t, "fenv")
 		f.K = rapid.IntRange(0, 1<<20).Draw(t, "fk")
 		f.Val = rapid.IntRange(1, 65535).Draw(t, "fval")
+		if (f.Kind == "cut") && rapid.IntRange(0, 249).Draw(t, "stall") == 137 {
+			f.Kind = "stall" // costs the receiver's (shortened) read timeout: kept rare
+		}
 		switch f.Kind {
 		case "rcode":
 			// a bad RCODE in a later AXFR envelope is deliberately not asserted (DESIGN §3 C15);
